@@ -1,11 +1,11 @@
 import Mieru.Gen.Consts
-import Mieru.Gen.Wire
+import Mieru.Gen.UdpWire
 /-!
-mieru-gen handler for the regenerated buffer arithmetic (`Mieru.Gen.Wire`, tools/goextract/c14wire.go):
+mieru-gen handler for the regenerated buffer arithmetic (`Mieru.Gen.UdpWire`, tools/goextract/c14wire.go):
 the harness compares these with measured datagrams / segments of the real endpoints.
 -/
-namespace Mieru.GenDriver.Wire
-open Mieru.Gen.Wire
+namespace Mieru.GenDriver.UdpWire
+open Mieru.Gen.UdpWire
 
 def ints (l : List String) : Option (List Int) := l.mapM String.toInt?
 
@@ -44,4 +44,4 @@ def step (toks : List String) : Option String :=
     | _ => some "bad-op"
   | _ => none
 
-end Mieru.GenDriver.Wire
+end Mieru.GenDriver.UdpWire
